@@ -23,6 +23,16 @@ Proof.
   intros s it Ha Hc He. unfold iter_next, gen_iter_at_end in *. rewrite Ha, Hc, !Nat.eqb_refl. simpl. rewrite He. reflexivity.
 Qed.
 
+(** ... and before the end an unmodified store yields the entry at the next position of occupied_list and advances by one *)
+Theorem gen_iter_yields_is_model : forall (s : store) (it : iter),
+  it_add it = nadd s -> it_clear it = nclear s ->
+  gen_iter_at_end (it_pos it) (len s) = false ->
+  iter_next s it = (mkIter (S (it_pos it)) (it_add it) (it_clear it),
+                    Yield (nth (it_pos it) (olist s) 0) (get_row s (nth (it_pos it) (olist s) 0))).
+Proof.
+  intros s it Ha Hc He. unfold iter_next, gen_iter_at_end in *. rewrite Ha, Hc, !Nat.eqb_refl. simpl. rewrite He. reflexivity.
+Qed.
+
 (** IteratorChecksCountersThenEnd: a modified store is reported even at the end of the iteration *)
 Theorem model_iter_counters_first : forall (s : store) (it : iter),
   (it_add it <> nadd s \/ it_clear it <> nclear s) -> iter_next s it = (it, Modified R).
@@ -60,6 +70,7 @@ Proof. reflexivity. Qed.
 
 Print Assumptions gen_resize_rejects_is_model.
 Print Assumptions gen_iter_at_end_is_model.
+Print Assumptions gen_iter_yields_is_model.
 Print Assumptions model_iter_counters_first.
 Print Assumptions model_clear_facts.
 Print Assumptions model_resize_facts.
